@@ -38,7 +38,7 @@ def _c06_unit_jobs():
     ]
     for (cid, name) in _CODECS6:
         big = cid >= 18      # vector codecs (8..32 bytes per element): 2 elements in the quick tier, 3 in the thorough tier
-        heavy = name in ("3d", "4d")   # measured on the loaded machine: 3d 245 s, 4d > 300 s for roundtrip_n with 2 elements -> thorough tier only
+        heavy = name in ("3d", "4d", "4f", "4i32", "4u32", "2d")   # measured on the loaded machine: 3d 245 s, 4d > 300 s for roundtrip_n with 2 elements -> thorough tier only
         pc = dict(harness="C06_propcodecs.cpp", units=_IO_PC6, unwind=64, eh=True, checks="mem", mem_gb=6, ll2c_flags=["--drop-ctor=PropertyCodecs.cc"])
         b = ("codec '%s': property of %d elements with symbolic values (floating point as arbitrary bit patterns incl. NaNs), symbolic span {first,count}: serialize -> "
              "count*elemsize bytes in the published little-endian layout -> deserialize restores exactly the span; symbolic default value through "
